@@ -73,14 +73,17 @@ def nontrivial(case, reply):
 
 
 MANIFEST = {
-    "text": "Proof over BOTH regenerated tables (kernel evaluation): for every opcode the Cancun table defines, the grammar's ordered choice "
-            "of mnemonics (op / swap / dup / log) run on the table's mnemonic consumes exactly that mnemonic — no earlier alternative "
-            "steals a prefix — and FromStr maps it back to the same byte; `push` word_size consumes exactly pushN for N = 1..32 and does "
-            "not match push0; every literal of the grammar's op rule is known to the table; offsets are prefix sums (C04). PARTIAL: the "
-            "end-to-end statement (listing text -> full pest interpreter -> parse -> assemble = original bytes for every byte string) is "
-            "checked exhaustively for every single instruction and on random streams through the real Disassembler and Ingest, not proved.",
+    "text": "Proof of the END-TO-END statement (C03_parse, C03_roundtrip): for every byte string whose linear sweep consists of complete "
+            "instructions with defined Cancun opcodes, the listing text (`mnemonic` or `mnemonic 0x<hex>` per line) run through the full "
+            "pest interpreter over the regenerated grammar, the pair-tree walk of parse_asm, Ingest::preprocess and Assembler::assemble "
+            "gives back exactly the original bytes; no bound on length or immediates. The interpreter part uses a three-valued window "
+            "interpreter proved sound for the interpreter model and evaluated by the kernel once per row of the regenerated opcode table "
+            "on a window of character classes. Also kept: the table theorems (grammar's ordered choice consumes exactly each mnemonic, "
+            "FromStr maps it back, push word_size consumes pushN and not push0, every grammar literal is known to the table); offsets are "
+            "prefix sums (C04).",
     "note": "Trusted: Lean kernel; translators for the opcode table (compiled crate API) and the grammar (pest_meta parse of asm.pest), rerun "
-            "on every check; PegLite is a plain PEG matcher for the literal fragment (its agreement with the full interpreter on that "
-            "fragment is exercised, not proved).",
-    "technique": "Lean 4 kernel-evaluated theorems over the regenerated opcode table and grammar + exhaustive single-instruction and random round trips through the real code",
+            "on every check, so the theorems are re-decided against what the sources say now; the hand-written models (pest interpreter, "
+            "Parse, Assemble, Disasm, listing format = Listing.listing) are tied to the real Disassembler / Display / Ingest by the "
+            "differential run: every single instruction exhaustively and random streams, half of them written in pieces.",
+    "technique": "Lean 4 proof (sound window interpreter for the pest model + kernel evaluation over the regenerated opcode table and grammar + induction over the listing) + exhaustive single-instruction and random round trips through the real code",
 }
